@@ -762,7 +762,8 @@ def run(ctx):
         if r.violated:
             v.violation(what=f"Graph.tla reference design violates {r.violated} (5 nodes)", observed=r.trace[-2:])
     for dev, inv in (SENSITIVITY if thorough else SENSITIVITY[:1] + SENSITIVITY[2:3]):
-        cfg_s = "SPECIFICATION MCSpec\n" + _consts(3, 2, ["all", "filtered", "infolder"], dev=[dev]) + f"INVARIANT {inv}\n"
+        sn = 3 if dev == "DirPassFirstPageOnly" else 2      # (needs a folder on the second page with a file in it)
+        cfg_s = "SPECIFICATION MCSpec\n" + _consts(sn, 2, ["all", "filtered", "infolder"], dev=[dev]) + f"INVARIANT {inv}\n"
         r = run_tlc("Graph", cfg_s, scratch=ctx.scratch, timeout=900, expect_fail=True)
         ev.tlc(f"Graph sensitivity: deviation {dev} must break {inv}", r, note="expected violation")
         if r.violated != inv:
@@ -777,11 +778,11 @@ def run(ctx):
     if thorough:
         walk = _walk_cases(_gen(ctx, "walk", 4, 2, ["all"], "walk-all"))
         rest = _walk_cases(_gen(ctx, "walk", 3, 2, ["filtered", "modsince", "crsince", "infolder"], "walk-rest"))
-        keep = 60000
+        keep = 30000
     else:
         walk = _walk_cases(_gen(ctx, "walk", 3, 2, ["all"], "walk-all"))
         rest = _walk_cases(_gen(ctx, "walk", 2, 2, ["filtered", "modsince", "crsince", "infolder"], "walk-rest"))
-        keep = 9000
+        keep = 4000
     n_enum = len(walk) + len(rest)
     rng = random.Random(f"{ctx.seed}:subset")
     exhaustive = True
@@ -837,26 +838,40 @@ def run(ctx):
         ctx.log(f"NOTE model drift: {len(drift)} trace(s) deviate from Graph.tla's walker algorithm but satisfy the property "
                 f"(e.g. {everything[drift[0]]['id']}); Graph.tla needs an update, no violation")
         v.ok(len(drift))
-    # detailed diagnosis (first event the specification cannot follow) for a bounded number of violations
-    detail = bad[:24]
-    if detail:
+    # ---- 5. verdicts: one VIOLATION per signature (call, fault kind, faulted request, outcomes), with a count
+    groups = {}
+    for i in bad:
+        t = everything[i]
+        if t["id"].startswith("match:"):
+            key = ("match",)
+        else:
+            f = t["hdr"]["fault"]
+            reqs = [e for e in t["ev"] if e["a"] == "Req"]
+            hitk = next((t["ev"][k - 1]["k"] for k, e in enumerate(t["ev"]) if e.get("inj") and k and t["ev"][k - 1]["a"] == "Req"), "-")
+            outs = tuple((e["a"], e.get("_pycls", ""), e.get("status", 0)) for e in t["ev"] if e["a"] in ("Raise", "Return"))
+            key = (t["id"].split(":")[0].rstrip("0123456789"), t["hdr"]["job"]["call"], f["kind"], f["code"], hitk, outs)
+        groups.setdefault(key, []).append(i)
+    reps = [ix[0] for _, ix in sorted(groups.items(), key=lambda kv: (-len(kv[1]), repr(kv[0])))]
+    detail = reps[:24]
+    reach = {}
+    if detail:              # first event the specification cannot follow, for one representative per signature
         sub = [_for_tlc(everything[i]) for i in detail]
         brs = validate("GraphTrace", _trace_cfg(True), sub, scratch=ctx.scratch, parallel=12, min_chunk=1)
         brl = validate("GraphTrace", _trace_cfg(False), sub, scratch=ctx.scratch, parallel=12, min_chunk=1)
-        reach = {i: (a.reached, b.reached, b.accepted) for i, a, b in zip(detail, brs.verdicts, brl.verdicts)}
-    else:
-        reach = {}
-    for i in bad:
+        reach = {i: (a.reached, b.reached) for i, a, b in zip(detail, brs.verdicts, brl.verdicts)}
+    for key, ix in sorted(groups.items(), key=lambda kv: (-len(kv[1]), repr(kv[0]))):
+        i = ix[0]
         t = everything[i]
-        rs, rl, acc = reach.get(i, (None, None, False))
+        rs, rl = reach.get(i, (None, None))
         if i in reach and rs == 0 and rl == 0:
             raise MachineryError(f"trace header rejected by GraphTrace!TraceInit (harness bug): {t['id']} {json.dumps(t['hdr'])[:400]}")
-        if t["id"].startswith("match:"):
+        more = f" [{len(ix)} cases with this signature, e.g. {', '.join(everything[j]['id'] for j in ix[:4])}]"
+        if key == ("match",):
             e = t["ev"][rl] if rl is not None and rl < len(t["ev"]) else None
             v.violation(what="FileFilter.matches differs from GraphFilter!Verdict: "
                              + (f"filter={_show_filter(e['F'])} file={uncodes(e['file']['name'])!r} in "
                                 f"{[uncodes(x) for x in e['file']['pp']]} created={e['_cr']} modified={e['_mo']} -> {e['obs']}"
-                                if e else "(one of 300 cases in this batch)"),
+                                if e else "(one of 300 cases in this batch)") + f" [{len(ix)} batches of 300 rejected]",
                         case=e, where="client.py:FileFilter.matches/_parse_iso_datetime")
             continue
         job, fault = t["hdr"]["job"], t["hdr"]["fault"]
@@ -864,14 +879,14 @@ def run(ctx):
                 f"targets={t.get('info', {}).get('targets')}, fault={fault['kind']}@{fault['at']}"
                 f"{'/' + str(fault['code']) if fault['code'] else ''}): ")
         if rl is not None and rl < len(t["ev"]):
-            e = t["ev"][rl]
-            what += f"event #{rl} {_show_event(e)} violates the property-level specification"
+            what += f"event #{rl} {_show_event(t['ev'][rl])} violates the property-level specification"
             if rs is not None and rs < len(t["ev"]) and rs != rl:
                 what += f"; first departure from the walker model at event #{rs} {_show_event(t['ev'][rs])}"
         else:
             what += "trace rejected by GraphTrace (strict and property level)"
         tail = [x for x in t["ev"] if x["a"] in ("Raise", "Return")]
-        v.violation(what=what, case={"id": t["id"], "hdr": t["hdr"], "info": t.get("info")},
+        v.violation(what=what + more, case={"id": t["id"], "hdr": t["hdr"], "info": t.get("info"),
+                                            "events": [_show_event(x) for x in t["ev"]][:80], "same_signature": len(ix)},
                     observed=[_show_event(x) for x in tail],
                     expected="complete exact listing / client-family error with status+url, all responses closed, retry complete",
                     where="sharepoint_io/client.py")
